@@ -636,3 +636,50 @@ def E1p_section_protocol(repo, clause, func="Atoms.load_lmpdat"):
     if not tests:
         obs.append(Ob("E1p", clause, fn, loop, False, "section keyword test `<line> in <handled sections>` not found", slot="keyword-without-comment", undecided=True))
     return obs
+
+
+def G39_argmin_then_second_criterion(repo, clause, scope=ALL_LIB):
+    """`k = D.argmin(...)` picks ONE candidate by the first criterion (distance); a test `D[i, k] < tol and other[k] == wanted` then applies the second criterion to that winner
+    only.  "Some candidate within the tolerance also satisfies the second criterion" is a different question: when two candidates are both within the tolerance (coincident atoms
+    of a mixed-occupancy site) the nearest one may fail the second test while the other passes both, and it is never examined."""
+    obs = []
+    fns = _scope_fns(repo, scope)
+    n = 0
+    for fn in fns:
+        picks = {}     # name -> (array text, node)
+        for st in [x for x in fn.own_nodes() if isinstance(x, ast.Assign) and len(x.targets) == 1 and isinstance(x.targets[0], ast.Name)]:
+            v = st.value
+            if isinstance(v, ast.Call) and call_name(v) in ("argmin", "argmax", "nanargmin", "nanargmax"):
+                arr = v.func.value if (isinstance(v.func, ast.Attribute) and not (isinstance(v.func.value, ast.Name) and v.func.value.id in ("np", "numpy"))) else (v.args[0] if v.args else None)
+                if arr is not None:
+                    picks[st.targets[0].id] = (ast.unparse(arr), st)
+        if not picks:
+            continue
+        # loop targets that run over the picked indices: for i, j in enumerate(closest) / for j in closest / zip(..., closest)
+        derived = dict(picks)
+        for lp in [x for x in fn.own_nodes() if isinstance(x, (ast.For, ast.comprehension))]:
+            it, tg = lp.iter, lp.target
+            srcs = [a for a in (it.args if isinstance(it, ast.Call) and call_name(it) in ("enumerate", "zip") else [it]) if isinstance(a, ast.Name) and a.id in picks]
+            if not srcs:
+                continue
+            names = [tg] if isinstance(tg, ast.Name) else [e for e in ast.walk(tg) if isinstance(e, ast.Name)]
+            if isinstance(it, ast.Call) and call_name(it) == "enumerate" and isinstance(tg, ast.Tuple) and len(tg.elts) == 2 and isinstance(tg.elts[1], ast.Name):
+                names = [tg.elts[1]]
+            elif isinstance(it, ast.Call) and call_name(it) == "zip" and isinstance(tg, ast.Tuple):
+                names = [tg.elts[i_] for i_, a in enumerate(it.args) if isinstance(a, ast.Name) and a.id in picks and i_ < len(tg.elts) and isinstance(tg.elts[i_], ast.Name)]
+            for nm in names:
+                derived[nm.id] = picks[srcs[0].id]
+        for t in [x for x in fn.own_nodes() if isinstance(x, ast.BoolOp) and isinstance(x.op, ast.And) and len(x.values) >= 2]:
+            for k, (arr_txt, st) in derived.items():
+                def uses_k(e):
+                    return any(isinstance(y, ast.Subscript) and any(isinstance(z, ast.Name) and z.id == k for z in ast.walk(y.slice)) for y in ast.walk(e))
+                first = [v for v in t.values if uses_k(v) and arr_txt in ast.unparse(v) and isinstance(v, ast.Compare) and isinstance(v.ops[0], (ast.Lt, ast.LtE))]
+                second = [v for v in t.values if uses_k(v) and arr_txt not in ast.unparse(v)]
+                if first and second:
+                    n += 1
+                    obs.append(Ob("G39", clause, fn, t, False,
+                                  "`%s` in %s applies the second criterion `%s` only to the ONE candidate chosen by `%s`: another candidate that is also within the tolerance and does "
+                                  "satisfy it (a coincident atom of the right element) is never examined - 'nearest, then test' is not 'some admissible candidate passes the test'"
+                                  % (ast.unparse(t)[:70], fn.qualname, ast.unparse(second[0])[:40], ast.unparse(st.value)[:40]), slot="argmin-then-filter:%s" % fn.qualname, positive="robust"))
+    obs.append(Ob("G39", clause, fns[0], fns[0].node, True, "%d functions in scope, %d nearest-then-test conjunctions flagged" % (len(fns), n), construct="argmin pre-selection inventory", slot="inventory"))
+    return obs
